@@ -120,6 +120,8 @@ def _ops():
     add("host of 'a.org'", lambda p: (impl.URL("http://a.org/x").host, impl.URL("http://xn--9ca.org/").host))
     add("host of fullwidth/decomposed spellings", lambda p: (impl.URL("http://\uff41.org/x").host, impl.URL("http://e\u0301.org/").host))
     add("host of 'a<soft hyphen>.org'", lambda p: out_url(impl.URL.build(scheme="http", host="a\xad.org")))
+    add("with_query(x=0.0)", lambda p: (str(p["P0"].with_query(x=0.0)), str(impl.URL.build(scheme="http", host="a.com", query={"z": [0.0, 1.0]}))))
+    add("with_query(x=-0.0)", lambda p: (str(p["P0"].with_query(x=-0.0)), str(p["P1"] % {"z": -0.0})))
     add("P6.port", lambda p: p["P6"].port)
     add("P6.user/password", lambda p: (p["P6"].user, p["P6"].password))
     add("P6.raw_host", lambda p: p["P6"].raw_host)
